@@ -31,7 +31,7 @@ func bigFields(r *core.Rand, total int) []Field {
 		fs = append(fs, Field{N: core.Pick(r, fieldNames), VLen: l, VSeed: uint32(r.U64()), Sens: r.Chance(5)})
 		total -= l
 	}
-	return fs
+	return represent(core.NewRand(r.Seed()^0x6870_6163_6b72_6570), fs)
 }
 
 func generateConc(seed uint64, p Params, run *Runner) {
